@@ -23,6 +23,7 @@ func init() {
 		Run: runC09,
 		Controls: []Control{
 			{Name: "attribute-cache-keyed-without-otc", File: "route/bgp_path_cache.go", Old: "\tif x, ok := bgpc.cache[*p]; ok {", New: "\tk := *p\n\tk.OnlyToCustomer = 0\n\tif x, ok := bgpc.cache[k]; ok {", Expect: "dedup-keeps-rewritten-attributes"},
+			{Name: "reflection-attributes-only-with-originator", File: "protocols/bgp/server/update_sender.go", Old: "packet.PathAttributes(pathNLRIs.path, u.iBGP, u.rrClient)", New: "packet.PathAttributes(pathNLRIs.path, u.iBGP, u.rrClient && pathNLRIs.path.BGPPath.BGPPathA.OriginatorID != 0)", Expect: "reflection-flag-is-per-session"},
 			{Name: "prepend-into-leading-as-set", File: "route/bgp_path.go", Old: "\tif first.Type == types.ASSet {\n\t\tb.insertNewASSequence()\n\t}\n", New: "\tif first.Type == types.ASSet && len(first.ASNs) >= types.MaxASNsSegment {\n\t\tb.insertNewASSequence()\n\t}\n", Expect: "prepend-into-sequence"},
 			{Name: "refactor-prepend-through-helper", Silent: true, File: "route/bgp_path.go", Old: "\tif len(*b.ASPath) == 0 {\n\t\tb.insertNewASSequence()\n\t}\n\n\tfirst := (*b.ASPath)[0]\n\tif first.Type == types.ASSet {\n\t\tb.insertNewASSequence()\n\t}\n\n\tfor i := 0; i < int(times); i++ {\n\t\tif len((*b.ASPath)[0].ASNs) >= types.MaxASNsSegment {\n\t\t\tb.insertNewASSequence()\n\t\t}\n", New: "\tfor i := 0; i < int(times); i++ {\n\t\tif len(*b.ASPath) == 0 || (*b.ASPath)[0].Type != types.ASSequence || len((*b.ASPath)[0].ASNs) > types.MaxASNsSegment-1 {\n\t\t\tb.insertNewASSequence()\n\t\t}\n"},
 			{Name: "no-export-to-ibgp-blocked", File: "routingtable/update_helper.go", Old: "(com == types.WellKnownCommunityNoExport && !sa.IBGP)", New: "(com == types.WellKnownCommunityNoExport)", Expect: "community-table"},
@@ -35,6 +36,7 @@ func init() {
 }
 
 func runC09(c *core.Ctx) {
+	reflectionFlagIsPerSession(c, "reflection-flag-is-per-session")
 	// Adj-RIB-Out paths end in Dedup(): a cache key that leaves an attribute out (OnlyToCustomer, ORIGINATOR_ID …) hands one
 	// session the attribute set rewritten for another (shared with C03)
 	internKeyCoversValue(c, "dedup-keeps-rewritten-attributes")
